@@ -483,6 +483,12 @@ def prepare_model(rng, n=None, kinds=None):
             model["features"] = {"trace": tr, "userdef1": rng.normal(size=model["n"])}
             model["meta"].pop("fluorescence", None)
             model["meta"] = gd.complete_meta(rng, model["features"], model["n"], None, tr)
+    if rng.random() < 0.08:
+        # a long log (an acquisition log of a long measurement): more lines than any block a
+        # reader or writer may use, counts around the round numbers and in between
+        nl = int(rng.choice([999, 1000, 1001, 1024, 1025, 1500, 2000, 2047, 2500, 4097]))
+        model["logs"]["long acquisition log"] = [f"{i:05d} frame dropped" if i % 7 else
+                                                 f"{i:05d} ok" for i in range(nl)]
     model["meta_parts"] = split_meta(rng, model["meta"])
     return model
 
